@@ -30,12 +30,16 @@ EPS = 1e-5
 @st.composite
 def _case(draw, tier):
     spec = draw(sdes.generic_specs(max_d=3, max_m=3, max_batch=2))
+    if spec["noise_type"] == "diagonal":
+        # unit multiplicative noise: g(t, y) returns its input tensor itself (a leaf for the internal autograd calls)
+        spec = dict(spec, g_alias=draw(st.sampled_from([False, False, False, True])))
     return {"spec": spec, "seed": draw(st.integers(0, 2 ** 31 - 1)), "t": draw(st.sampled_from([0.0, 0.4, -0.7, 1.3])),
             "grad_enabled": draw(st.booleans()),
             # one AdjointSDE object serves a whole backward pass: optionally it is first evaluated at a later forward time,
             # where (regime switch) the diffusion is a constant without state or parameters, and only then at the point
             # under test - what it returns there must not depend on what it was asked before
-            "warmup_regime": draw(st.sampled_from([None, None, "constant_diffusion_first", "same_regime_first"])),
+            "warmup_regime": draw(st.sampled_from([None, None, "constant_diffusion_first", "same_regime_first",
+                                                    "other_state_same_time_between"])),
             # the evaluation point may be one where the diffusion vanishes exactly (g(t,y) - g(t,0) at y = 0) while its
             # derivative does not; the adjoint parameter list may be empty (adjoint_params=() is documented)
             "g_zero_point": draw(st.sampled_from([False, False, False, True])),
@@ -56,16 +60,22 @@ def enumerate_cases(tier):
     for sde_type in sdes.SDE_TYPES:
         for nt in sdes.NOISE_TYPES:
             for grad in (False, True):
-                for flavour in ("plain", "g_zero_point", "no_params", "constant_diffusion_first"):
+                for flavour in ("plain", "g_zero_point", "no_params", "constant_diffusion_first", "g_alias",
+                                "other_state_same_time_between"):
+                    if flavour == "g_alias" and nt != "diagonal":
+                        continue
                     idx += 1
                     rnd = random.Random(seed * 9001 + idx)
                     spec = {"sde_type": sde_type, "noise_type": nt, "d": 2, "m": 1 if nt == "scalar" else 2, "batch": 2,
                             "hidden": 3, "seed": rnd.randrange(2 ** 31), "tdep": True, "fscale": 1.0, "gscale": 0.7,
                             "dtype": "float64"}
+                    if flavour == "g_alias":
+                        spec["g_alias"] = True
                     yield {"spec": spec, "seed": rnd.randrange(2 ** 31), "t": rnd.choice([0.0, 0.4, -0.7]),
                            "grad_enabled": grad, "g_zero_point": flavour == "g_zero_point",
                            "no_params": flavour == "no_params",
-                           "warmup_regime": flavour if flavour == "constant_diffusion_first" else None}
+                           "warmup_regime": flavour if flavour in ("constant_diffusion_first",
+                                                                   "other_state_same_time_between") else None}
 
 
 class Oracle:
@@ -214,7 +224,19 @@ def run_case(case):
                 "oracle_selfcheck", f"autograd VJP and central differences disagree ({e:.3e}) - oracle defect", sig))
 
     ctx = torch.enable_grad() if case["grad_enabled"] else torch.no_grad()
-    if warm:
+    between = warm == "other_state_same_time_between"
+    other = torch.randn(y_aug_leaf().shape, generator=gen, dtype=torch.float64)
+
+    def disturb(which):
+        """One evaluation at the same time but another augmented state between two checked evaluations (what a solver
+        with several stages per step does): the next answer must belong to the point it is asked at."""
+        if between:
+            with ctx:
+                if which == "f":
+                    adj.f(t_adj, (y_aug_leaf() + other))
+                else:
+                    adj.g_prod(t_adj, (y_aug_leaf() + other), v2.clone())
+    if warm and not between:
         t_warm = torch.tensor(-(case["t"] + 1.0), dtype=torch.float64)      # forward time t + 1 (after the switch, if any)
         with ctx:
             adj.f(t_warm, y_aug_leaf())
@@ -222,9 +244,14 @@ def run_case(case):
             adj.f_and_g_prod(t_warm, y_aug_leaf(), v.clone())
             if nt == "diagonal":
                 adj.g_prod_and_gdg_prod(t_warm, y_aug_leaf(), v.clone(), v2.clone())
+    disturb("g")
     with ctx:
         f_out = adj.f(t_adj, y_aug_leaf())
+    disturb("f")
+    with ctx:
         g_out = adj.g_prod(t_adj, y_aug_leaf(), v.clone())
+    disturb("f")
+    with ctx:
         f2_out, g2_out = adj.f_and_g_prod(t_adj, y_aug_leaf(), v.clone())
     r = cmp("AdjointSDE.f", f_out, want_f, 1e-7, "adjoint_drift") or \
         cmp("AdjointSDE.g_prod", g_out, want_g, 1e-7, "adjoint_diffusion_prod") or \
@@ -240,6 +267,7 @@ def run_case(case):
                     "graph_leak_under_no_grad", f"AdjointSDE.{name} returns a tensor attached to an autograd graph "
                                                 f"although gradients are disabled", sig))
     if nt == "diagonal":
+        disturb("f")
         with ctx:
             gp_out, gdg_out = adj.g_prod_and_gdg_prod(t_adj, y_aug_leaf(), v.clone(), v2.clone())
         want_gdg = None
@@ -286,7 +314,8 @@ def run_case(case):
                                      f"from central differences ({fdv:.8g})", sig))
     labels = [f"{spec['sde_type']}/{nt}", "grad_enabled" if case["grad_enabled"] else "no_grad"] + \
         ([f"warmup={warm}"] if warm else []) + (["diffusion_vanishes_at_point"] if gzp else []) + \
-        (["empty_adjoint_params"] if case.get("no_params") else [])
+        (["empty_adjoint_params"] if case.get("no_params") else []) + \
+        (["g_returns_its_input_tensor"] if spec.get("g_alias") and nt == "diagonal" else [])
     return Result(nontrivial=(d >= 2 or B >= 2), labels=labels, checks=checks,
                   metrics={f"relerr/{k}": v_ for k, v_ in worst.items()})
 
